@@ -206,6 +206,35 @@ def check_locks(chk, tu):
                                '%s sets done at %s but does not broadcast the consume condition before unlocking (%r): with several workers '
                                'all but one wait forever and pthread_join never returns' % (fname, astdb.loc_str(s), names),
                                '%s:done-broadcast' % fname, astdb.loc_str(s))
+                if fname == PRODUCER and not rhs_null and l.get('name') in ('task', 'done'):
+                    # R09.15: the slot is drained (while (writer.task != NULL) wait(produce)) between the lock and the store -
+                    # posting into an occupied slot overwrites a task; announcing done over an occupied slot lets the worker,
+                    # which tests done first, leave with that task unwritten (the last file is never emitted)
+                    before = []
+                    for t in stmts[:i]:
+                        if t.get('kind') == 'CallExpr' and astdb.callee_name(t) == 'pthread_mutex_lock':
+                            before = []
+                        else:
+                            before.append(t)
+                    drained = any(t.get('kind') == 'WhileStmt'
+                                  and any(x.get('kind') == 'MemberExpr' and x.get('name') == 'task' for x in walk(kids(t)[-2]))
+                                  and any(x.get('kind') == 'CallExpr' and astdb.callee_name(x) == 'pthread_cond_wait'
+                                          and mutex_text(astdb.call_args(x)[0]).endswith('produce') for x in walk(kids(t)[-1]))
+                                  for t in before)
+                    worker_prefers_task = False
+                    if l.get('name') == 'done':
+                        wbody = astdb.fn_body(tu.functions[WORKER])
+                        ifs = [w for w in walk(wbody) if w.get('kind') == 'IfStmt'
+                               and any(x.get('kind') == 'MemberExpr' and x.get('name') == 'done' for x in walk(kids(w)[0]))]
+                        worker_prefers_task = bool(ifs) and all(any(x.get('kind') == 'MemberExpr' and x.get('name') == 'task' for x in walk(kids(w)[0]))
+                                                                 for w in ifs)
+                    chk.expect(drained or worker_prefers_task, 'R09.15', '%s:drain-before-%s' % (fname, l.get('name')),
+                               '%s stores writer.%s at %s without first waiting, under the same lock, for the task slot to be empty '
+                               '(while (writer.task != NULL) pthread_cond_wait(&writer.produce, ...)): %s' % (
+                                   fname, l.get('name'), astdb.loc_str(s),
+                                   'a pending task is overwritten and its file is never written' if l.get('name') == 'task' else
+                                   'the worker tests done before task and leaves with the last task pending - the last implementation file is never written'),
+                               '%s:drain-before-%s' % (fname, l.get('name')), astdb.loc_str(s))
                 if l.get('name') == 'task' and rhs_null and fname == WORKER:
                     chk.expect('pthread_mutex_unlock' in names, 'R09.1', '%s:clear-then-unlock' % fname,
                                'worker clears the slot at %s but the unlock does not follow in the same block' % astdb.loc_str(s),
